@@ -262,6 +262,9 @@ def c19_shift(sc, base, seed):
         return out
     rng = random.Random(seed)
     k = rng.randint(1, 12)
+    dt = int(sc["model"].get("dt", 1))
+    steps = k
+    k = k * dt                      # a delay of `steps` steps is `steps * dt` temporal units (rows of the records)
     tw = copy.deepcopy(sc)
     tw["T"] = sc["T"] + k
     for e in tw["events"]:
@@ -277,7 +280,7 @@ def c19_shift(sc, base, seed):
         out.append(viol("C19", 0, f"shift by {k}: crashed flag differs", a=base["crashed"], b=b["crashed"]))
         return out
     q = 10.0 ** -(int(np.log10(sc["model"]["monetary_factor"])) + 1)
-    out += cmp_records("C19", base, b, f"all events delayed by {k} steps", rtol=1e-9, atol_scale=1e-9,
+    out += cmp_records("C19", base, b, f"all events delayed by {steps} steps ({k} temporal units)", rtol=1e-9, atol_scale=1e-9,
                        rows_a=slice(0, n), rows_b=slice(k, k + n))
     # and the first k rows of the delayed run are the equilibrium
     return out
@@ -298,11 +301,12 @@ def c19_late(sc, base, seed):
     out = []
     if not sc["events"] or seed % 8 != 0:
         return out
-    k = 735
+    dt = int(sc["model"].get("dt", 1))
+    k = 735 * dt                    # 735 steps, in temporal units
     a = copy.deepcopy(sc)
-    a["T"] = 30
+    a["T"] = 30 * dt
     b = copy.deepcopy(sc)
-    b["T"] = 30 + k
+    b["T"] = 30 * dt + k
     for e in a["events"]:
         e["occ"] = min(e["occ"], 3)
         e["dur"] = min(e["dur"], 3)
@@ -317,9 +321,9 @@ def c19_late(sc, base, seed):
     if ra["crashed"] or rb["crashed"]:
         return out
     if rb["n"] != ra["n"] + k:
-        out.append(viol("C19", 0, f"shift by {k}: the delayed run simulated {rb['n']} steps instead of {ra['n'] + k}"))
+        out.append(viol("C19", 0, f"shift by {k}: the delayed run simulated {rb['n']} temporal units instead of {ra['n'] + k}"))
         return out
     n = ra["n"]
-    out += cmp_records("C19", ra, rb, f"all events delayed by {k} steps (long horizon)", rtol=1e-9, atol_scale=1e-9,
+    out += cmp_records("C19", ra, rb, f"all events delayed by {k} temporal units (long horizon)", rtol=1e-9, atol_scale=1e-9,
                        rows_a=slice(0, n), rows_b=slice(k, k + n))
     return out
